@@ -22,7 +22,7 @@ engine_tests() {
 case $what in
   quick) engine_tests; run_tier quick;;
   thorough) run_tier thorough;;
-  refactors) tools/run_refactors.sh | grep -v CLEAN && fail=1;;
-  all) engine_tests; run_tier quick; run_tier thorough; tools/run_refactors.sh | grep -v CLEAN && fail=1;;
+  refactors) tools/run_refactors.sh | grep -v CLEAN | grep -v -F -f <(grep -v '^#' refactors/LIMITS.txt | cut -d' ' -f1) && fail=1;;
+  all) engine_tests; run_tier quick; run_tier thorough; tools/run_refactors.sh | grep -v CLEAN | grep -v -F -f <(grep -v '^#' refactors/LIMITS.txt | cut -d' ' -f1) && fail=1;;
 esac
 exit $fail
